@@ -49,12 +49,16 @@ CLAIMED = {
  "C05": dict(engine="e6-termination (instrumented build) + free-running pass", design="4/C05",
    text="Every lexeme string up to a length bound over a 24-lexeme alphabet (incl. NUL, ^Z, invalid UTF-8, CR-LF), every 1- and 2-token mutation of 12 seed programs, every reader chunking / read error up to a deviation bound and every producer/consumer schedule of the lexer and FOR-expander goroutines up to a preemption bound are assembled on the instrumented build under a controlled scheduler: non-return is a deterministic step-budget verdict, a leaked goroutine is a thread still blocked when all others finished; err xor warrior and no panic are checked on every execution; a scaling family checks the step count against a linear budget; a free-running pass on the plain build re-checks goroutine counts.",
    technique="stateless exploration under a controlled scheduler (preemption / deviation bounded DFS) + bounded exhaustive input enumeration with a deterministic step budget"),
+ "C14": dict(engine="e7-concurrency (instrumented build) + copy isolation + race pass", design="4/C14",
+   text="Scenarios of 2..3 concurrent jobs (three kinds of assembly, load, simulation sharing one configuration value and one WarriorData) run as threads of a controlled scheduler on the instrumented build with scheduling points at every function entry, loop iteration and channel operation: every interleaving up to a deviation bound must give each job its sequential result with no leak or deadlock; every map-iteration order vector with <=2 deviating sites over 14 symbol-table programs must give one result; every (mutation of caller data x API point) pair must leave the simulator's observations unchanged; a free-running -race pass over job sets and thread counts 1..32 complements this for plain-memory races.",
+   technique="stateless interleaving exploration under a controlled scheduler (deviation-bounded DFS) + exhaustive map-order and mutation-point enumeration; race detector pass as sampled complement"),
 }
 
 PENDING = {
 }
 
 ENGINES = [
+ {"name": "e7-concurrency", "path": "/verif/mc/engines/e7", "serves_properties": ["C14"], "kind_free_text": "job interleavings and map orders under verif/mc/sched on the instrumented build; copy-isolation grid; free-running race-detector pass"},
  {"name": "e6-termination", "path": "/verif/mc/engines/e6", "serves_properties": ["C05", "C06"], "kind_free_text": "controlled scheduler (verif/mc/sched) over the instrumented build generated by verif/mc/cmd/vinst; token soup, mutations, reader chunkings, schedules"},
  {"name": "e3-apiseq", "path": "/verif/mc/engines/e3", "serves_properties": ["C13"], "kind_free_text": "explicit-state breadth-first search over API call sequences on the real simulator"},
  {"name": "e5-loadfiles", "path": "/verif/mc/engines/e5", "serves_properties": ["C09", "C10", "C16"], "kind_free_text": "canonical load-file printer, layout perturbation and corruption enumerators, listing reader"},
